@@ -55,14 +55,43 @@ def enum_regex(items, limit=100000):
 
 
 def if_chain_formats(fi):
-    """{length: format} from `if len(value) == k: fmt = '...'` chains; also returns the tolerated range tests"""
+    """{length: format}: a format-string constant that is assigned or returned on a path that passed `len(<param>) == k`
+    (as a statement-level test or as a conjunct of one).  Decided on path conditions, so `fmt = ..` chains, early returns
+    and reordered chains give the same table."""
+    from ..cfg import cfg_of
+    from .. import pathcond
+    g = cfg_of(fi)
+    p0 = fi.params[0] if fi.params else 'value'
     out = {}
     for n in own_nodes(fi.node):
-        if isinstance(n, ast.If) and isinstance(n.test, ast.Compare) and norm(n.test.left) == 'len(value)' and \
-                len(n.test.ops) == 1 and isinstance(n.test.ops[0], ast.Eq) and isinstance(n.test.comparators[0], ast.Constant):
-            for b in n.body:
-                if isinstance(b, ast.Assign) and norm(b.targets[0]) == 'fmt' and isinstance(b.value, ast.Constant):
-                    out[n.test.comparators[0].value] = b.value.value
+        consts = []
+        if isinstance(n, ast.Assign) and isinstance(n.value, ast.Constant) and isinstance(n.value.value, str):
+            consts = [n.value.value]
+        elif isinstance(n, ast.Return) and n.value is not None:
+            v = n.value.elts[0] if isinstance(n.value, ast.Tuple) and n.value.elts else n.value
+            if isinstance(v, ast.Constant) and isinstance(v.value, str):
+                consts = [v.value]
+        consts = [c_ for c_ in consts if '%' in c_]
+        if not consts:
+            continue
+        nid = g.node_for(n)
+        if nid is None:
+            continue
+        for conds in pathcond.conditions(g, nid):
+            lens = set()
+
+            def atom(t, pol):
+                if pol and isinstance(t, ast.Compare) and len(t.ops) == 1 and isinstance(t.ops[0], ast.Eq):
+                    l_, r_ = t.left, t.comparators[0]
+                    if norm(l_) == 'len(%s)' % p0 and isinstance(r_, ast.Constant):
+                        lens.add(r_.value)
+                    if norm(r_) == 'len(%s)' % p0 and isinstance(l_, ast.Constant):
+                        lens.add(l_.value)
+                return False
+            for t, o in conds:
+                pathcond.outcome_implies(t, o, atom)
+            if len(lens) == 1:
+                out[lens.pop()] = consts[0]
     return out
 
 
@@ -192,8 +221,8 @@ def run(chk):
     gdf = ix.func('utils._get_date_format')
     dfm = if_chain_formats(gdf)
     tfm = if_chain_formats(gtf)
-    frac = [n.value.value for n in own_nodes(gtf.node) if isinstance(n, ast.Assign) and norm(n.targets[0]) == 'fmt' and
-            isinstance(n.value, ast.Constant) and '%f' in n.value.value]
+    frac = [x.value for n in own_nodes(gtf.node) if isinstance(n, (ast.Assign, ast.Return)) and n.value is not None
+            for x in ast.walk(n.value) if isinstance(x, ast.Constant) and isinstance(x.value, str) and '%f' in x.value]
     tset = set(tfm.values()) | set(frac)
     if len(dfm) < 3 or len(tset) < 4:
         raise AnalysisError('utils format chains not recognised: %s / %s' % (dfm, tset))
